@@ -102,6 +102,21 @@ EXTRA_TEXT = {
 }
 EXTRA_TEXT["C06"] = " Live cases (real goroutines, timers, TCP): crowds of 60 concurrent clients at one node and paced submitters with injected delays; when every node is idle under its own lock an accepted transaction that is still uncommitted is a violation (decided on state; an expired watchdog alone is inconclusive)."
 EXTRA_TEXT["C15"] = " Every transported frame that lists two or more validator sets is used to reset six fresh stores whose first-round table must equal the sender's."
+
+# additions of the fourth session
+EXTRA4 = {
+ "C01": " Four deep-lag histories per run: a validator hears nothing for more than half of a long history and then receives a backlog of 500+ events in whole syncs of the default limit.",
+ "C04": " Six cases per run put one synthetic DAG through a real Hashgraph on Badger whose cache (40-60) is smaller than the events in flight (75-115): events are evicted and read back from the database between the passes of one consensus run; the delivered blocks are judged with the same oracle against the harness's record of the DAG.",
+ "C07": " The bootstrap route: a valid DAG is written to a real Badger store, the store closed, one event record altered with the raw database handle (re-signed with another validator's key, signature replaced or undecodable, payload / timestamp / membership request rewritten on a chain head), the store reopened and bootstrapped; every event the restarted hashgraph lists must pass the harness's own signature check.",
+ "C09": " Histories in which validators lose their data and reset from a peer's anchor while the relay adds entries to the signature map of the (sufficiently signed, otherwise untouched) anchor block: valid signatures by strangers and by identities outside the block's validator set, junk under stranger keys, under lax spellings of a member's key and under keys of members that have not signed (fixed finding 71df378).",
+ "C11": " Crash points placed inside the run of re-writes that one insertion makes (first descendants of the ancestors, one store write per ancestor).",
+ "C14": " A quarter of the forgeries name a validator the victim knows in the self-made set, use a block index at which the victim holds (and once verified) that validator's signature, and repeat that genuine signature string under its key.",
+ "C15": " Every transported frame is also used to reset a fresh store (as decoded, and from a decoded slice with room to grow); the frame read back from that store and re-encoded must still hash to the block's frame hash. Histories with healing partitions and lagging validators add frames of many events.",
+ "C16": " Sparse look-ups of events by hash and by creator/index before they are written (as the node's parent checks and wire decoding do) must fail, and the same keys must be readable later, after the item has left the in-memory window.",
+ "C19": " A third of the additions in the edit sequences name the validator under the lower-case spelling of its key.",
+}
+for k, v in EXTRA4.items():
+    EXTRA_TEXT[k] = EXTRA_TEXT.get(k, "") + v
 EXTRA_TECH = {
  "C06": "; plus live soaks with a state-based verdict",
  "C01": "; live soak also under the Go race detector (informational)",
